@@ -184,6 +184,27 @@ def run(chk):
         return True, "", [fl[0].loc]
     chk.ob("C11.R1:keep-active-file", "the active file is kept iff the batch fits and its period equals the current one", r1)
 
+    def every_candidate_checked():
+        """Both candidates for "the file this batch goes to" - the active file carried over from the previous batch and a file re-opened for reuse
+        after a restart / failed write - pass the fits-and-same-period decision: on the CFG, no path from either source (the take() of the
+        active file, the try_open_reuse call) reaches the first write without going through that decision."""
+        cb = c10.main_closure(P)
+        fl = [c for c in cb.calls(normal_only=True) if c.callee.get("name") == "filter" and "Option" in (c.callee.get("full") or "")
+              and "ActiveFile" in (c.callee.get("full") or "")]
+        we = cb.calls_to(path="emit_file::ActiveFile::write_event")
+        srcs = [c for c in cb.calls(normal_only=True) if c.callee.get("name") == "try_open_reuse" or
+                (c.callee.get("name") == "take" and mir.o_field_path(cb.origin(c.args[0]))[1][-1:] == ["active_file"])]
+        if len(fl) != 1 or len(we) != 1 or len(srcs) < 2:
+            raise mir.AnchorMissing("filter / write_event / the two sources of the file in Worker::on_batch (%d, %d, %d)" % (len(fl), len(we), len(srcs)))
+        for sc in srcs:
+            if sc.bb == fl[0].bb:
+                continue
+            if not cb.must_pass({fl[0].bb}, start=sc.term.get("t", sc.bb), ends={we[0].bb}):
+                return False, ("a file obtained at %s (%s) can reach the write without the fits-and-same-period decision at %s: a file re-opened for reuse - "
+                               "possibly of an older period, possibly full - would receive the batch" % (sc.loc, sc.callee.get("name"), fl[0].loc)), [], sc.loc
+        return True, "", [c.loc for c in srcs] + [fl[0].loc]
+    chk.ob("C11.R1:every-candidate-checked", "the carried-over file and the file re-opened for reuse both pass the keep decision before anything is written", every_candidate_checked)
+
     def r2():
         cb = c10.main_closure(P)
         ar = cb.calls_to(path_re=r"ActiveFileSet::<.*>::apply_retention$")
